@@ -488,6 +488,8 @@ pub enum Init {
     Read(Source),
     Boxed(Source),
     Buf(BufReader<Source>),
+    /// A BufReader over any other source (C10's generated streams).
+    BufDyn(BufReader<Box<dyn Read>>),
 }
 
 impl Init {
@@ -497,6 +499,7 @@ impl Init {
             Init::Read(s) => DeferredReader::from_read(s),
             Init::Boxed(s) => DeferredReader::from_boxed_dyn_read(Box::new(s)),
             Init::Buf(b) => DeferredReader::from_buf_reader(b),
+            Init::BufDyn(b) => DeferredReader::from_buf_reader(b),
         }
     }
 }
